@@ -1469,6 +1469,8 @@ class AggregateFunction(Function):
 
     @builder
     def filter(self, *filters: Any) -> "AnalyticFunction":
+        if not filters:
+            return
         self._include_filter = True
         self._filters = [*self._filters, *filters]
 
